@@ -21,7 +21,7 @@ func init() {
 			"Counter.Add of a possibly negative value (NONNEG, via the clock-under-lock rule), in-place Pack alignment (ALIGN), dereference of a value returned next to a non-nil error (co-results are used only behind err == nil or a nil test, through callees and closures) — is discharged by a named procedure or reported; (WAIT) WaitGroup.Add dominates each handler go, " +
 			"Done is deferred first in the goroutine and Wait runs on every exit of the serve loop; (LOOPEXIT) the serve loops leave only on errors.Is(err, net.ErrClosed); (CLOSEPAIR/JOIN) the client connection, the dialed " +
 			"target connection and the association socket are closed on every exit of their owner (a freshly created outbound socket is handed to the association table or closed on every path), no goroutine started in a loop shares a loop-carried variable, and the relay function returns only after joining its helper goroutine; (CANCELPUMP) reader goroutines can always terminate. (RACEFREE) every shared field obeys its lock discipline (an unsynchronised map access aborts the process, no recover frame helps); (DELIVER) a connection a handle has taken is returned, never dropped.",
-		NotDecided: "panics inside the standard library / third-party code, nil dereferences, memory or descriptor exhaustion; bounds discharge D4 establishes that a bound exists on every untrusted length, not that the arithmetic is tight.",
+		NotDecided: "panics inside the standard library / third-party code, nil dereferences other than calls through never-assigned fields and uses of failed calls' co-results, memory or descriptor exhaustion; bounds discharge D4 establishes that a bound exists on every untrusted length, not that the arithmetic is tight.",
 		Trusted:    []string{"io.Reader / net.PacketConn contract: n <= len(buffer)", "SaltSize()/TagSize() and package-level lengths computed at init are trusted sizes"},
 	})
 }
